@@ -93,6 +93,77 @@ theorem propagate_staged {eq wc eq2 wc2 : Adj} {r : Res} (h : Pre eq wc)
         (∀ y, y ∈ E ↔ Reach eq2 wc2 x false y) ∧ (∀ y, y ∈ W ↔ Reach eq2 wc2 x true y)) := by
   exact Pepper.Closure.propagate_staged h e h2 hd
 
+/-- The stored classes are coherent (what `constraint_load` relies on when it reads ONE member's record
+    for the whole class): the record of every member `y` of `x`'s even class is `x`'s record (as sets),
+    and the record of every member of `x`'s odd class is `x`'s record with the two sets swapped. -/
+theorem result_classes_coherent {eq wc : Adj} (h : Pre eq wc) :
+    ∃ r, propagate eq wc = .ok r ∧
+      ∀ x ∈ keys eq, ∀ Ex Wx, r.get x = some (Ex, Wx) →
+        (∀ y ∈ Ex, ∃ Ey Wy, r.get y = some (Ey, Wy) ∧
+            (∀ z, z ∈ Ey ↔ z ∈ Ex) ∧ (∀ z, z ∈ Wy ↔ z ∈ Wx)) ∧
+        (∀ y ∈ Wx, ∃ Ey Wy, r.get y = some (Ey, Wy) ∧
+            (∀ z, z ∈ Ey ↔ z ∈ Wx) ∧ (∀ z, z ∈ Wy ↔ z ∈ Ex)) := by
+  obtain ⟨r, e, hr⟩ := propagate_exact h
+  refine ⟨r, e, fun x xk Ex Wx g => ?_⟩
+  obtain ⟨E, W, g', hE, hW⟩ := hr x xk
+  rw [g] at g'
+  obtain ⟨rfl, rfl⟩ : Ex = E ∧ Wx = W := by
+    have := Option.some.inj g'; exact ⟨congrArg Prod.fst this, congrArg Prod.snd this⟩
+  constructor
+  · intro y hy
+    have ry : Reach eq wc x false y := (hE y).1 hy
+    obtain ⟨Ey, Wy, gy, hEy, hWy⟩ := hr y (ry.mem_keys h.keyClosed xk)
+    refine ⟨Ey, Wy, gy, fun z => ?_, fun z => ?_⟩
+    · rw [hEy, hE, Reach.shift h.eqSymm h.wcSymm ry false z]; simp
+    · rw [hWy, hW, Reach.shift h.eqSymm h.wcSymm ry true z]; simp
+  · intro y hy
+    have ry : Reach eq wc x true y := (hW y).1 hy
+    obtain ⟨Ey, Wy, gy, hEy, hWy⟩ := hr y (ry.mem_keys h.keyClosed xk)
+    refine ⟨Ey, Wy, gy, fun z => ?_, fun z => ?_⟩
+    · rw [hEy, hW, Reach.shift h.eqSymm h.wcSymm ry false z]; simp
+    · rw [hWy, hE, Reach.shift h.eqSymm h.wcSymm ry true z]; simp
+
+/-- The result is a symmetric relation: `y` is among `x`'s equals iff `x` is among `y`'s, and the same
+    for complements. -/
+theorem result_symmetric {eq wc : Adj} (h : Pre eq wc) :
+    ∃ r, propagate eq wc = .ok r ∧
+      ∀ x ∈ keys eq, ∀ y ∈ keys eq, ∀ Ex Wx Ey Wy,
+        r.get x = some (Ex, Wx) → r.get y = some (Ey, Wy) →
+        (y ∈ Ex ↔ x ∈ Ey) ∧ (y ∈ Wx ↔ x ∈ Wy) := by
+  obtain ⟨r, e, hr⟩ := propagate_exact h
+  refine ⟨r, e, fun x xk y yk Ex Wx Ey Wy gx gy => ?_⟩
+  obtain ⟨E, W, g', hE, hW⟩ := hr x xk
+  obtain ⟨E', W', g'', hE', hW'⟩ := hr y yk
+  rw [gx] at g'; rw [gy] at g''
+  obtain ⟨rfl, rfl⟩ : Ex = E ∧ Wx = W := by
+    have := Option.some.inj g'; exact ⟨congrArg Prod.fst this, congrArg Prod.snd this⟩
+  obtain ⟨rfl, rfl⟩ : Ey = E' ∧ Wy = W' := by
+    have := Option.some.inj g''; exact ⟨congrArg Prod.fst this, congrArg Prod.snd this⟩
+  refine ⟨?_, ?_⟩
+  · rw [hE, hE']; exact ⟨Reach.symm h.eqSymm h.wcSymm, Reach.symm h.eqSymm h.wcSymm⟩
+  · rw [hW, hW']; exact ⟨Reach.symm h.eqSymm h.wcSymm, Reach.symm h.eqSymm h.wcSymm⟩
+
+/-- A satisfiable item set is one without an odd cycle: `x` lies in its own complement class iff some
+    item is both an equal and a complement of `x` (then no assignment of bases can satisfy the links —
+    the condition C15 reports). -/
+theorem self_complementary_iff_overlap {eq wc : Adj} (h : Pre eq wc) :
+    ∃ r, propagate eq wc = .ok r ∧
+      ∀ x ∈ keys eq, ∀ Ex Wx, r.get x = some (Ex, Wx) →
+        (x ∈ Wx ↔ ∃ y, y ∈ Ex ∧ y ∈ Wx) := by
+  obtain ⟨r, e, hr⟩ := propagate_exact h
+  refine ⟨r, e, fun x xk Ex Wx g => ?_⟩
+  obtain ⟨E, W, g', hE, hW⟩ := hr x xk
+  rw [g] at g'
+  obtain ⟨rfl, rfl⟩ : Ex = E ∧ Wx = W := by
+    have := Option.some.inj g'; exact ⟨congrArg Prod.fst this, congrArg Prod.snd this⟩
+  constructor
+  · intro hx; exact ⟨x, (hE x).2 Reach.refl, hx⟩
+  · rintro ⟨y, yE, yW⟩
+    have a : Reach eq wc x false y := (hE y).1 yE
+    have b : Reach eq wc x true y := (hW y).1 yW
+    have := a.trans (b.symm h.eqSymm h.wcSymm)
+    exact (hW x).2 (by simpa using this)
+
 /-- The executable precondition check used by the driver and the harness generators is sound. -/
 theorem pre_of_preB {eq wc : Adj} (h : preB eq wc = true) : Pre eq wc := Pre.of_preB h
 
